@@ -459,6 +459,18 @@ def rsrc(ctx, pid):
                 % (fkey(f), ast.unparse(node.value), a, cls.name), witness={"function": f.qual, "attribute": a})
     else:
         ctx.ok(c, "trie/", "the %d functions reachable from the readers load only declared state attributes (%d attribute loads)" % (len(seen_funcs), n_loads))
+    # memoising decorators: results of a reader would be remembered across changes of the db / root
+    PURE_MEMO_OK = {"trie.hexary:HexaryTrie._cached_create_node_to_db_mapping"}  # pure function of the node contents
+    mbad = None
+    for q in sorted(seen_funcs):
+        f = ctx.P.funcs[q]
+        if q in PURE_MEMO_OK:
+            continue
+        for d in f.decos:
+            if d.split(".")[-1] in ("lru_cache", "cache", "cached_property") or "memoize" in d:
+                mbad = mbad or (f, d)
+    if mbad:
+        ctx.bad("no-memoised-reader:%s" % pid, mbad[0].loc(), "%s is wrapped in `%s`: its result would be remembered although it depends on the db / root, which change" % (fkey(mbad[0]), mbad[1]))
     # global (module-level) mutable tables consulted by readers must be constant tables
     gbad = None
     for q in sorted(seen_funcs):
